@@ -947,7 +947,8 @@ func (v *Verifier) frameCheckLoc(st *State, key string, addr *Term, in ssa.Instr
 		case "under":
 			alts = append(alts, mk("Bool", "zz_under", addr, m.base))
 		case "userdata":
-			if !strings.HasPrefix(key, "map") {
+			// a package-level variable is never user data (it is shared by every execution)
+			if !strings.HasPrefix(key, "map") && !globReach(addr) {
 				alts = append(alts, tNot(v.internalField(addr, key)))
 				v.D.declFun("zz_userptr", []string{"Ptr"}, "Bool")
 				alts = append(alts, mk("Bool", "zz_userptr", addr))
@@ -1297,6 +1298,25 @@ func (v *Verifier) appendBuiltin(st *State, tg *callTarget, bind ssa.Value, in s
 func (v *Verifier) assumeQInt(st *State, bound *Term, body *Term) {
 	st.assume(mk("Bool", "forall (("+bound.Op+" Int))", body))
 	st.qfacts = append(st.qfacts, qfact{sort: "Int", inst: func(idx *Term) *Term { return substTerm(body, bound, idx) }})
+}
+
+// globReach: the address is (syntactically) a package-level variable, or lies in an object that was reached by
+// loading pointers / slices starting from one. Such memory is shared by every execution, never user data.
+func globReach(t *Term) bool {
+	for depth := 0; depth < 12; depth++ {
+		r := rootOf(t)
+		switch {
+		case r.Op == "zz_glob":
+			return true
+		case (r.Op == "zz_sl_base" || strings.HasPrefix(r.Op, "zz_unbox_")) && len(r.Args) == 1:
+			t = r.Args[0]
+		case r.Op == "select" && len(r.Args) == 2:
+			t = r.Args[1]
+		default:
+			return false
+		}
+	}
+	return false
 }
 
 // relocate rewrites a leaf address template (built on elem(base0, 0)) to elem(b, idx)
